@@ -18,6 +18,8 @@ def dispatch (j : Json) : Json :=
   | "dump" => opDump j
   | "load" => opLoad j
   | "roundtrip" => opRoundtrip j
+  | "header" => opHeader j
+  | "scan" => opScan j
   | "validate" => opValidate j
   | "ping" => jObj [("pong", jNat 1)]
   | op => jObj [("bad-op", jStr op)]
